@@ -420,6 +420,12 @@ class Session:
             if self.panel is None:
                 why = self._refused(lambda: self.db.generate_flat_panel_dataframe(), 'flatten on non-panel data')
                 ctx.log(kind, 'refused', why)
+            elif len(self.rows) % 4 == 1:
+                # a call that fails (a misspelled name among the columns declared identical) and is caught by the caller
+                # leaves the table as it was
+                why = self._refused(lambda: self.db.generate_flat_panel_dataframe(identical_columns=['no_such_column']),
+                                    'flatten with an unknown column declared identical')
+                ctx.log(kind, 'refused', why)
             else:
                 ident = None
                 if a[0]:
